@@ -28,7 +28,7 @@ ASSUMPTIONS = [
     "bounded progress: a run still alive 60 s after its last logged event is reported as non-termination; a run killed by the outer watchdog earlier is inconclusive",
     "the explicit-state model clause of the quantifier is NOT decided (different technique); schedule diversity from the grid and delay injection stands in, distinct interleavings are reported",
 ]
-FLOORS = {"quick": {"runs": 40, "delivered": 300, "retirements": 5, "failed_tasks_delivered": 5, "distinct:interleavings": 15},
+FLOORS = {"quick": {"runs": 40, "delivered": 300, "retirements": 5, "failed_tasks_delivered": 5, "distinct:interleavings": 15, "network_error_tasks": 10, "retirement_waves_held_back": 2},
           "thorough": {"runs": 500, "delivered": 3000, "retirements": 50, "failed_tasks_delivered": 50, "injected_delays": 500,
                        "distinct:interleavings": 150}}
 NPROC = {"quick": 8, "thorough": 16}
@@ -50,6 +50,15 @@ def grid(tier, seed):
         dict(n=10, pool=4, max_tasks=2, big_payload=200000), dict(n=30, pool=1, max_tasks=2, raising=[104]),
         dict(n=30, pool=1, max_tasks=25, raising=[104], tolerate_fails=False), dict(n=5, pool=8, max_tasks=25),
     ]
+    # a whole wave of workers retires together while the parent, having consumed everything, waits on an empty result queue
+    # (the retirement is held back by a slow flush): the ids still queued must be picked up by restarted workers
+    base += [dict(n=6, pool=2, max_tasks=1, inject={"seed": 1, "max_ms": 0, "prob": 0.0, "fixed": {"worker_before_retire": 1400}}),
+             dict(n=7, pool=3, max_tasks=2, api="run", inject={"seed": 2, "max_ms": 0, "prob": 0.0, "fixed": {"worker_before_retire": 1400}})]
+    # network errors: retried net_retry times inside the worker; a task that never recovers is a failure of its own id
+    base += [dict(n=12, pool=3, max_tasks=25, net_always=[101, 104], net_wrapped=[106], net_flaky={"102": 2, "108": 3}, raising=[110]),
+             dict(n=12, pool=1, max_tasks=25, net_always=[101, 104], net_wrapped=[106], net_flaky={"102": 2, "108": 3}, raising=[110], api="run"),
+             dict(n=6, pool=2, max_tasks=2, net_always=[103], tolerate_fails=False),
+             dict(n=6, pool=1, max_tasks=2, net_always=[103], tolerate_fails=False)]
     runs += base
     nrand = 40 if tier == "quick" else 1500
     for i in range(nrand):
@@ -151,12 +160,23 @@ def judge(spec, res, acc):
     end = next((e for e in ev if e["k"] == "end"), None)
     delivered = [e for e in ev if e["k"] == "deliver"]
     dones = [e for e in ev if e["k"] == "done"]
-    raising = set(spec.get("raising", []))
+    net_fail = set(spec.get("net_always", [])) | set(spec.get("net_wrapped", []))
+    raising = set(spec.get("raising", [])) | net_fail
     tolerate = spec.get("tolerate_fails", True)
     acc.count("runs")
+    acc.count("network_error_tasks", len(net_fail) + len(spec.get("net_flaky", {})))
+
+    def want_orig(i):
+        if i in set(spec.get("net_always", [])):
+            return "ConnectionResetError" if i % 2 else "BrokenPipeError"
+        if i in set(spec.get("net_wrapped", [])):
+            return "RuntimeError"
+        return "ValueError"
     acc.count("delivered", len(delivered))
     acc.count("retirements", sum(len(e["retired"]) for e in ev if e["k"] == "reap"))
     acc.count("injected_delays", sum(1 for e in ev if e["k"] == "inject"))
+    if (spec.get("inject") or {}).get("fixed") and any(e["k"] == "inject" and e.get("at") == "worker_before_retire" for e in ev):
+        acc.count("retirement_waves_held_back")
     acc.count("failed_tasks_delivered", sum(1 for e in delivered if not e["ok"]))
     sig = signature(ev)
     acc.distinct("interleavings", sig)
@@ -197,7 +217,7 @@ def judge(spec, res, acc):
         else:
             if e["id"] not in raising:
                 acc.violation("C12/success-delivered-as-failure", "a non-raising task was delivered as a failure", dict(w, event=e))
-            elif e.get("orig") != "ValueError" or e.get("exc_dev") not in (e["id"], str(e["id"])):
+            elif e.get("orig") != want_orig(e["id"]) or e.get("exc_dev") not in (e["id"], str(e["id"])):
                 acc.violation("C12/wrong-failure", "delivered failure does not carry the task's own error/id", dict(w, event=e))
     dup = {i: c for i, c in del_count.items() if c > sub_count.get(i, 0)}
     if dup:
@@ -206,7 +226,7 @@ def judge(spec, res, acc):
     if must_raise:
         if end["how"] != "raised":
             acc.violation("C12/error-swallowed", "tolerate_fails is off and a task raised, but the run ended normally", dict(w, end=end))
-        elif end.get("orig") != "ValueError" or end.get("exc_dev") not in raising and str(end.get("exc_dev")) not in {str(x) for x in raising}:
+        elif end.get("orig") not in {want_orig(x) for x in raising} or end.get("exc_dev") not in raising and str(end.get("exc_dev")) not in {str(x) for x in raising}:
             acc.violation("C12/wrong-error-raised", "the error that ended the run is not a submitted task's error", dict(w, end=end))
         return "ok", None
     if end["how"] != "normal":
